@@ -5,6 +5,9 @@ CONSTANTS
   Cap = 1
   GenesisInFuture = TRUE
   DelayIgnoresCancel = FALSE
+  Reporters = {"sync", "includer"}
+  ReportOnCancel = {"sync", "includer"}
+  ErrCap = 2
   SendIgnoresCancel = FALSE
-PROPERTIES StopsEventually StopsPromptly
+PROPERTIES StopsEventually StopsPromptly RunReturns
 CHECK_DEADLOCK FALSE
